@@ -95,7 +95,7 @@ def wfEntries (kind : τ → VK) (kids : List (SN τ)) (key : Tok) : List DN →
   | .mk en ek ev :: r =>
     ev.isEmpty && wfKids kind kids ek &&
       decide (((ek.find? fun (d : DN) => d.name = key).bind fun d => d.vals.head?) = some en) &&
-      wfEntries kind kids key r
+      !(r.any fun e => e.name = en) && wfEntries kind kids key r
 end
 
 
@@ -208,14 +208,15 @@ theorem dec_enc_entries (kind : τ → VK) (rfc : Bool) (mo : List Tok → Tok) 
   | path, pm, .mk en ek ev :: r, h => by
     rw [wfEntries.eq_def] at h
     simp only [Bool.and_eq_true, List.isEmpty_iff, decide_eq_true_eq] at h
-    obtain ⟨⟨⟨hv, hk⟩, hkey⟩, hr⟩ := h
+    obtain ⟨⟨⟨⟨hv, hk⟩, hkey⟩, hnd⟩, hr⟩ := h
     subst hv
+    simp only [Bool.not_eq_true'] at hnd
     rw [encEntries.eq_def]
     simp only []
     rw [decEntries.eq_def]
     simp only []
     rw [dec_enc_kids kind rfc mo hm kids path pm ek hk]
-    simp only [obind_some, hkey, dec_enc_entries kind rfc mo hm kids key path pm r hr]
+    simp only [obind_some, hkey, dec_enc_entries kind rfc mo hm kids key path pm r hr, hnd]
     rfl
 end
 
